@@ -27,7 +27,7 @@ WALL = {"quick": 600, "thorough": 7200}
 
 
 def cases(tier):
-    return 700 if tier == "quick" else 30000
+    return 5000 if tier == "quick" else 120000
 
 
 def floors(tier):
